@@ -17,8 +17,13 @@ def unit_subseq():
     G = U.module("windpyutils/generic.py")
     U.define("match", ["s1", "s2", "o"], "forall(t, 0, len(s1), s2[o + t] == s1[t], trigger=s1[t])")
     m = G.function("sub_seq", {"s1": SeqS(ANY), "s2": SeqS(ANY)}, BOOL)
-    m.ensures("implies(result, exists(o, 0, len(s2) - len(s1) + 1, match(s1, s2, o)))", "True=>some-window-of-s2-equals-s1")
-    m.ensures("implies(exists(o, 0, len(s2) - len(s1) + 1, match(s1, s2, o)), result)", "some-window-equals-s1=>True(empty-s1-included)")
+    # stated over slices, the vocabulary of the code (s1 == s2[o:o + len(s1)]); that a slice equals s1 exactly when the window matches
+    # elementwise is the lemma window=slice below (a pure fact about sequences, proved once, without any path condition in the query)
+    win = "exists(o, 0, len(s2) - len(s1) + 1, s1 == s2[o:o + len(s1)])"
+    m.ensures("implies(result, %s)" % win, "True=>some-window-of-s2-equals-s1")
+    m.ensures("implies(%s, result)" % win, "some-window-equals-s1=>True(empty-s1-included)")
+    U.lemma("window=slice", {"ls1": SeqS(ANY), "ls2": SeqS(ANY), "lo": INT}, ["0 <= lo and lo <= len(ls2) - len(ls1)"],
+            ["iff(ls1 == ls2[lo:lo + len(ls1)], match(ls1, ls2, lo))"], induct=None)
 
     m = G.function("search_sub_seq", {"s1": SeqS(ANY), "s2": SeqS(ANY)}, SeqS(TupS(INT, INT)),
                    locals={"res": SeqS(TupS(INT, INT)), "offset": INT, "end_offset": INT})
